@@ -19,6 +19,6 @@ def t3(rep, tier, seed):
 def run(rep, tier, seed):
     rep.level = "exploration"
     rep.assume("A1", "A2", "A4", "A5", "A6", "A8")
-    D.run_contracts(rep, "C05", D.COVER, tier, with_lemmas=True)
+    D.run_contracts(rep, "C05", D.COVER + D.TQ, tier, with_lemmas=True)
     t3(rep, tier, seed)
     D.link_falsifier(rep)
